@@ -224,8 +224,20 @@ static void p1_run(uint64_t idx, vh_rng_t * rng) {
 #endif
 }
 
+/* values that are "sparse" in decimal: a few non-zero digits, long runs of zeros (k*10^18 + c, 10^a + 10^b, ...) */
+static uint64_t sparse_decimal(vh_rng_t * rng) {
+    uint64_t v = 0; int terms = 1 + (int) vh_below(rng, 3), t;
+    for (t = 0; t < terms; t++) {
+        uint64_t p = 1, d = 1 + vh_below(rng, 18); int e = (int) vh_below(rng, 20);
+        while (e--) p *= 10;
+        if (vh_chance(rng, 1, 3)) d = vh_below(rng, 1000000000u); /* a whole group of up to nine digits */
+        v += d * p; /* wraps modulo 2^64 for the largest ones, still a legal value */
+    }
+    return vh_chance(rng, 1, 4) ? (uint64_t) (0 - v) : v;
+}
 static uint64_t biased64(vh_rng_t * rng) {
     uint64_t r = vh_rand(rng);
+    if (vh_below(rng, 5) == 0) return sparse_decimal(rng);
     switch (vh_below(rng, 8)) {
         case 0: return r;
         case 1: return r >> vh_below(rng, 64);
